@@ -265,6 +265,7 @@ func (c *Ctx) checkClassification(r *rule, source, kind string, fields []string)
 	}
 	var cands []cand
 	var notes []string
+	var rewritten []string
 	for _, f := range fields {
 		for _, app := range cl.apps[f] {
 			elem := cl.appendedElement(c, app)
@@ -276,11 +277,30 @@ func (c *Ctx) checkClassification(r *rule, source, kind string, fields []string)
 			if !holds {
 				continue // the append is for another node type
 			}
+			// what is recorded is the declared text itself (for plain files: joined behind the root), not a rewritten form of it
+			ls := c.newSlicer()
+			ls.depth = 0
+			for _, v := range ls.run(app.Call.Args[1]).order {
+				call, isCall := v.(*ssa.Call)
+				if !isCall {
+					continue
+				}
+				if call.Common().IsInvoke() && call.Common().Method.Name() == "Literal" {
+					continue
+				}
+				if n := calleeName(call.Common()); n != "path/filepath.Join" && n != "builtin.append" && n != "builtin.len" {
+					rewritten = append(rewritten, fmt.Sprintf("the %s recorded in Task.%s at %s passes through %s", strings.ToLower(strings.TrimPrefix(kind, "Node")), f, c.ipos(app), n))
+				}
+			}
 			cands = append(cands, cand{app, f, residual})
 		}
 	}
 	if len(cands) == 0 {
 		r.bad(key, c.bpos(cl.loop.header), fmt.Sprintf("no append inside the loop over ast.Task.%s adds an ast.%s element to Task.%s", source, kind, strings.Join(fields, "/")), notes...)
+		return
+	}
+	if len(rewritten) > 0 {
+		r.bad(key, c.bpos(cl.loop.header), "a declaration is rewritten before it is recorded ("+strings.Join(rewritten, "; ")+"): what spok then depends on, expands or removes is not what the spokfile says")
 		return
 	}
 	// cover: an append without any further condition, or two appends under the two sides of one further condition
